@@ -3,6 +3,7 @@
   implementation's own `(v, i)`) and `run` (replay mode: run the model's solver).
 -/
 import SysLoss.Driver.Wire
+import SysLoss.Spec.Laws
 
 open Lean
 
@@ -105,8 +106,24 @@ def cmdCert (j : Json) : Json :=
       let v' : Vec α := fs.foldl (init := Array.replicate s.hidx (0 : α)) fun acc (n, r) =>
         match r with | .ok (x, _) => acc.setIfInBounds n x | .error _ => acc
       let g := s.backProp ph v' i st
+      -- the documented laws evaluated on the implementation's own row values (Vin, Iout)
+      let rows := (jArr ((obs.find? fun o => jStr o "phase" == ph).getD .null) "rows").toList
+      let spec := rows.filterMap fun rj =>
+        match rj with
+        | .arr #[idj, vinj, ioj] =>
+          let n := (idj.getNat?).toOption.getD 0
+          (s.node? n).map fun nd =>
+            let vin : α := (numOf vinj).getD 0
+            let io : α := (numOf ioj).getD 0
+            let k := (nd.parents.map (vget v)).findIdx? (fun x => !isZ x)
+            let rsel := nd.comp.muxRs (k.getD 0)
+            let phc := nd.pconf.ctx ph
+            Json.mkObj [("id", n), ("vo", Wire.out (specVo nd.comp rsel vin io phc)),
+              ("ii", Wire.out (specIi nd.comp vin io phc)),
+              ("sel", match k with | some k => Json.num (Int.ofNat k) | none => Json.num (-1))]
+        | _ => none
       Json.mkObj [("phase", ph), ("F", .arr (v'.map Wire.out)), ("G", .arr (g.map Wire.out)),
-        ("Ferr", match ferr with | some e => errOut e | none => .null)]
+        ("Ferr", match ferr with | some e => errOut e | none => .null), ("spec", .arr spec.toArray)]
     Json.mkObj ([("ok", Json.bool true), ("sweeps", .arr sweeps.toArray)] ++ tableOut t)
 
 /-- `run`: the model's own solver -/
